@@ -16,7 +16,7 @@ from .. import gen, build, mcase
 from ..ctx import jhash
 
 ID = "C10"
-CASES = {"quick": 1200, "thorough": 40000}
+CASES = {"quick": 3000, "thorough": 40000}
 MIN_CASES_PER_SHARD = 150
 MAX_SHARDS = 4
 CASE_TIMEOUT = 40
@@ -206,7 +206,7 @@ def finalize(fold):
 
 
 TECHNIQUE = "runtime monitoring: recorded per-process result logs from interpreters with different PYTHONHASHSEED compared offline; in-process permutation differential"
-LEVEL_TEXT = ("1.2k (quick) / 40k (thorough) cases, each executed in 4 / 12 fresh interpreters differing only in the string-hash seed; the per-case "
+LEVEL_TEXT = ("{Q} (quick) / {T} (thorough) cases, each executed in 4 / 12 fresh interpreters differing only in the string-hash seed; the per-case "
               "canonical results are logged and compared offline (identical required); plus two node/neighbour-order permutations per case "
               "(index and probability equal; path up to exact ties). Held-on-observed.")
 LEVEL_NOTE = "Trusted: PYTHONHASHSEED is the only source of cross-process variation. A fixed list of 12 hash seeds is used."
